@@ -12,6 +12,8 @@ ATOMIC      on every path to a failure return of a container operation the
 REALLOC     realloc's result is never assigned straight over its argument
 INFALLIBLE  in the void deleters/shrinkers/cancels/destructors, every callee
             that can fail for lack of memory has its result tested and handled
+REPORTED    from the NULL edge of every tested acquisition only failure returns
+            are reachable (non-zero / NULL): no fall-through into the success return
 """
 import re
 from .. import cdb, ir, report, own
@@ -106,6 +108,52 @@ def leak_rules(prog, rep, only_files=None):
                       "the result of realloc must not be stored straight over its argument (the old block is lost on failure)",
                       function=f.name, construct="realloc-self")
     return acq
+
+
+
+REPORTED_EXCEPTIONS = {
+    ("util/readpass.c", "readpass", "fopen"): "not a memory failure: when /dev/tty cannot be opened the passphrase is read from stdin instead, as documented",
+}
+
+
+def reported_rule(prog, rep, only_files=None):
+    """"Allocation failure is reported": from the NULL edge of every tested acquisition, every return that can be reached
+    carries the function's failure value (non-zero for int functions, NULL for pointer functions) -- a cleanup ladder that
+    falls through into the success return reports success with the work undone."""
+    acq = own.discover_acquirers(prog)
+    n = 0
+    for f in prog.all_funcs():
+        if only_files is not None and f.file not in only_files:
+            continue
+        rt = (f.unit.types.get(f.ret) or {}).get("kind")
+        if rt not in ("int", "ptr"):
+            continue
+        for b in f.blocks.values():
+            if b.cond is None or len(b.succs) != 2:
+                continue
+            for truth, succ in ((True, b.succs[0]), (False, b.succs[1])):
+                hit = None
+                for op, L, R, Le, Re in cond_atoms(b.cond, truth):
+                    ce = Le.strip() if Le is not None else None
+                    if ce is not None and ce.cls == "CallExpr" and ce.callee in acq and R == ("c", 0) and op == "==":
+                        hit = ce
+                    # asprintf / vasprintf allocate through an out-parameter and answer -1
+                    if ce is not None and ce.cls == "CallExpr" and ce.callee in ("asprintf", "vasprintf") and ((op == "==" and R == ("c", -1)) or (op == "<" and R == ("c", 0))):
+                        hit = ce
+                if hit is None or succ is None:
+                    continue
+                n += 1
+                vals, seen = f.returns_from(succ)
+                wrong = [v for v in vals if v is not None and v[0] == "c" and ((v[1] == 0) if rt == "int" else (v[1] != 0))]
+                inst = "%s in %s" % (hit.text[:50], f.name)
+                key = (f.unit.path if f.static else f.file, f.name, hit.callee)
+                if wrong and key in REPORTED_EXCEPTIONS:
+                    rep.unknown("REPORTED", inst, hit.where, "frozen exception: " + REPORTED_EXCEPTIONS[key])
+                    continue
+                rep.check(not wrong, "REPORTED", inst, hit.where,
+                          "when this acquisition fails a path reaches `return %s`, the function's success value: the failure is not reported to the caller" % (
+                              show(wrong[0]) if wrong else ""), function=f.name, construct="reported:" + hit.callee)
+    return n
 
 
 def atomic_rule(prog, rep):
@@ -225,6 +273,7 @@ def run(tier):
         acq = leak_rules(prog, rep)
         atomic_rule(prog, rep)
         infallible_rule(prog, rep)
+        reported_rule(prog, rep)
         from . import c07
         c07.orphan_rule(prog, rep)     # a queue-resident buffer must not be orphaned when launching its write fails
     rep.notes.append("acquirers discovered from the program: " + ", ".join(sorted(set(acq) - set(own.LIBC_ACQ))))
@@ -234,4 +283,5 @@ def run(tier):
     rep.require_min("ATOMIC", 12 * n)
     rep.require_min("REALLOC", 4 * n)
     rep.require_min("INFALLIBLE", 25 * n)
+    rep.require_min("REPORTED", 90 * n)
     return rep
